@@ -8,13 +8,15 @@
    What is proved, what is not:
    * C11_total, C11_roundtrip: full strength for graphs of any size (decode_from_dict o
      encode_to_dict); callbacks (functools.partial) correspond to None at this level.
-   * the re-creation of the head callbacks by json_to_state is modelled (Serial.json_to_state)
-     and tied by (T) C11_source_shape and by the correspondence X1, not yet by a theorem.
+   * the re-creation of the head callbacks by json_to_state (second half of Serial.json_to_state)
+     has its own theorem C11_callbacks_recreated (every head of every flow state gets two fresh
+     partials bound to (state, its flow state); frame for the rest of the decoded heap); the two
+     halves are not composed into one isomorphism statement for State-shaped graphs.
    * C11_cleanup_commutes_partial covers the resolution of the matcher index; the claim for the
      whole event loop ("same outgoing events") is validated by exploration (X2), not proved. *)
 From Coq Require Import ZArith List String Bool.
-From NG Require Import Gen.C11Consts V2.Serial V2.SerialRun V2.Serial_proofs V2.Serial_examples
-                       V2.Cleanup V2.Cleanup_proofs V2.Cleanup_now.
+From NG Require Import Gen.C11Consts V2.Serial V2.SerialRun V2.Serial_proofs V2.Serial_examples V2.Callbacks_proofs
+                       V2.Cleanup V2.Cleanup_proofs V2.CleanupRun V2.Cleanup_now.
 Import ListNotations.
 Open Scope string_scope.
 Open Scope Z_scope.
@@ -70,6 +72,31 @@ Theorem C11_roundtrip_inhabited :
   (rank_of rk_state (VO 0%Z) < 50)%nat.
 Proof. exact (conj state_supported (conj state_acyclic state_rank)). Qed.
 Print Assumptions C11_roundtrip_inhabited.
+
+(* json_to_state, second half: on the decoded heap, every head reached through
+   state.flow_states[*].heads[*] gets both callback attributes bound to a fresh
+   partial(_flow_head_changed, state, <its own flow state>), its other attributes and every
+   other object of the heap are unchanged *)
+Theorem C11_callbacks_recreated :
+  forall h n state W,
+    collect_heads h state = Some W -> below h n -> heads_ok h W ->
+    exists h' n',
+      redo_callbacks h n state = Some (h', n') /\ below h' n' /\
+      (forall fs x, In (fs, VO x) W ->
+         exists c fl ks0 ks p q a b,
+           lookup h x = Some (mk (HData c fl) ks0) /\ lookup h' x = Some (mk (HData c fl) ks) /\
+           index_of pos_f fl = Some p /\ index_of stat_f fl = Some q /\
+           nth_error ks p = Some (VO a) /\ nth_error ks q = Some (VO b) /\ a <> b /\ n <= a /\ n <= b /\
+           lookup h' a = Some (partial_node state fs) /\ lookup h' b = Some (partial_node state fs) /\
+           (forall m, m <> p -> m <> q -> nth_error ks m = nth_error ks0 m)) /\
+      (forall j, j < n -> (forall fs, ~ In (fs, VO j) W) -> lookup h' j = lookup h j).
+Proof. exact redo_callbacks_spec. Qed.
+Print Assumptions C11_callbacks_recreated.
+
+Theorem C11_callbacks_inhabited :
+  collect_heads ex_cb_heap (VO 0) = Some [(VO 2, VO 6); (VO 2, VO 7); (VO 3, VO 8)].
+Proof. exact ex_cb_collect. Qed.
+Print Assumptions C11_callbacks_inhabited.
 
 (* DESIGN section 5, F7: on the UNREPAIRED encoder a re.Pattern in a flow variable - a reachable
    value: `$r = regex("a")` - makes state_to_json raise at every recursion limit *)
